@@ -228,7 +228,7 @@ def execute_reachers(cx: Cx) -> frozenset:
 
 def scheduler_paths(cx: Cx, unroll=2, inline=True, root: str = None) -> Tuple[FuncInfo, List[Path]]:
     fn = cx.fn(root or (CORE + 'SystemManager.execute_systems'))
-    k = execute_reachers(cx) - {fn.qualname}
+    k = (execute_reachers(cx) - {fn.qualname}) | {'<private>'}
     ps = cx.walker.paths(fn, WalkOptions(unroll=unroll, callee_raises=False, inline_full=k, max_paths=60000))
     return fn, ps
 
